@@ -22,7 +22,12 @@ def judge(run, case, raw, version, drv, stage):
     except refspec.BErr as exc:
         run.fail("impl-vs-spec", dict(case, stage=stage), {"not canonical": str(exc)})
         strict_ok = False
-        meta = refspec.lenient_decode(raw)
+        drv.ask("strict " + hx(raw), ("strict", case, strict_ok))
+        meta = refspec.lenient_decode(raw)      # BErr when not bencoding at all: ends the case
+        why = metas.wellformed(meta, version)
+        if why:
+            run.fail("impl-vs-spec", dict(case, stage=stage), {"structure": why})
+        return meta
     why = metas.wellformed(meta, version)
     if why:
         run.fail("impl-vs-spec", dict(case, stage=stage), {"structure": why})
@@ -31,6 +36,13 @@ def judge(run, case, raw, version, drv, stage):
 
 
 def run_case(run, drv, rng, case_seed):
+    try:
+        _run_case(run, drv, rng, case_seed)
+    except refspec.BErr:
+        pass        # already reported by judge (the bytes written are not bencoding at all)
+
+
+def _run_case(run, drv, rng, case_seed):
     import random
     rng = random.Random(case_seed)
     with sandbox("c06") as box:
